@@ -729,3 +729,223 @@ Qed.
 Lemma bend_sums_to_zero (k phi0 a1 a2 n1 n2 dt : R) :
   let '(di, dj, dk) := bend_derivative k phi0 a1 a2 n1 n2 dt in di + dj + dk = 0.
 Proof. unfold bend_derivative. ring. Qed.
+
+(** ** C02: Mexican-hat potentials — the two inverse functions are correct on their side of the minimum
+    (the path-level inversion through the four cases is NOT proved: displacement_inverts_mexhat_partial) *)
+Lemma Rpower_root_pow (a : R) (p : nat) : 0 < a -> (0 < p)%nat -> Rpower a (1 / INR p) ^ p = a.
+Proof.
+  intros Ha Hp. rewrite <- Rpower_pow by apply Rpower_pos. rewrite Rpower_mult.
+  assert (0 < INR p) by (apply lt_0_INR; exact Hp).
+  replace (1 / INR p * INR p) with 1 by (field; lra). apply Rpower_1, Ha.
+Qed.
+
+Theorem dep_invert_outside (k r0 : R) (p : nat) (U rn : R) :
+  0 < k -> 0 <= r0 -> (0 < p)%nat -> 0 < U ->
+  dep_inv_out k r0 p U = Some rn -> r0 < rn /\ dep_pot k r0 p (rn * rn) = U.
+Proof.
+  intros Hk Hr0 Hp HU H. unfold dep_inv_out in H. injection H as <-.
+  assert (Hq : 0 < U / k) by (apply Rdiv_lt_0_compat; assumption).
+  pose proof (Rpower_pos (U / k) (1 / INR p)) as Ht.
+  split; [lra|]. unfold dep_pot. rewrite sqrt_square by lra.
+  replace (r0 + Rpower (U / k) (1 / INR p) - r0) with (Rpower (U / k) (1 / INR p)) by ring.
+  rewrite Rpower_root_pow by assumption. field; lra.
+Qed.
+
+Lemma pow_lt_strict (x y : R) (n : nat) : 0 <= x < y -> (0 < n)%nat -> x ^ n < y ^ n.
+Proof.
+  intros [Hx Hxy] Hn. induction n as [|n IH]; [lia|].
+  destruct n as [|n].
+  - simpl. lra.
+  - assert (x ^ S n < y ^ S n) by (apply IH; lia).
+    assert (0 <= x ^ S n) by (apply pow_le; exact Hx).
+    simpl in *. nra.
+Qed.
+
+Theorem dep_invert_inside (k r0 : R) (p : nat) (U : R) :
+  0 < k -> (0 < p)%nat -> Nat.Even p -> 0 < U -> U <= k * r0 ^ p -> 0 < r0 ->
+  let rn := dep_inv_in k r0 p U in
+  0 <= rn < r0 /\ dep_pot k r0 p (rn * rn) = U.
+Proof.
+  intros Hk Hp Hev HU Hmax Hr0 rn. unfold dep_inv_in in rn.
+  assert (Hq : 0 < U / k) by (apply Rdiv_lt_0_compat; assumption).
+  pose proof (Rpower_pos (U / k) (1 / INR p)) as Ht.
+  assert (Etp : Rpower (U / k) (1 / INR p) ^ p = U / k) by (apply Rpower_root_pow; assumption).
+  set (t := Rpower (U / k) (1 / INR p)) in *.
+  assert (Hle : t <= r0).
+  { destruct (Rle_lt_dec t r0) as [L|L]; [exact L|]. exfalso.
+    assert (r0 ^ p < t ^ p) by (apply pow_lt_strict; [lra | exact Hp]).
+    rewrite Etp in H. assert (k * r0 ^ p < U) by (apply (Rmult_lt_compat_l k) in H; [|exact Hk];
+      replace (k * (U / k)) with U in H by (field; lra); exact H). lra. }
+  subst rn. split; [lra|].
+  unfold dep_pot. rewrite sqrt_square by lra.
+  replace (r0 - t - r0) with (- t) by ring.
+  destruct Hev as [m ->]. rewrite pow_Rsqr, <- Rsqr_neg, <- pow_Rsqr. rewrite Etp. field; lra.
+Qed.
+
+(** Lennard-Jones: with t = (sigma / r)^6 the potential is k (t^2 - t) *)
+Lemma lj_pot_of_t (k sigma t : R) :
+  0 < sigma -> 0 < t ->
+  let rn := sigma / Rpower t (1 / 6) in
+  lj_pot k sigma (rn * rn) = k * (t * t - t).
+Proof.
+  intros Hs Ht rn.
+  pose proof (Rpower_pos t (1 / 6)) as Hu.
+  assert (Hrn : 0 < rn) by (apply Rdiv_lt_0_compat; assumption).
+  assert (Hu6 : Rpower t (1 / 6) ^ 6 = t).
+  { replace (1 / 6) with (1 / INR 6) by (simpl; field). apply Rpower_root_pow; [exact Ht | lia]. }
+  assert (Hrn6 : rn ^ 6 = sigma ^ 6 / t).
+  { unfold rn. rewrite <- Hu6 at 2. field. lra. }
+  unfold lj_pot, ip_potential.
+  assert (Hr2 : 0 < rn * rn) by nra.
+  replace (6 / 2) with (INR 3) by (simpl; field).
+  replace (12 / 2) with (INR 6) by (simpl; field).
+  rewrite !Rpower_pow by exact Hr2.
+  replace ((rn * rn) ^ 3) with (rn ^ 6) by ring.
+  replace ((rn * rn) ^ 6) with (rn ^ 6 * rn ^ 6) by ring.
+  rewrite Hrn6.
+  assert (sigma ^ 6 <> 0) by (apply pow_nonzero; lra).
+  field. split; lra.
+Qed.
+
+Theorem lj_invert_outside (k sigma U rn : R) :
+  0 < k -> 0 < sigma -> - k / 4 <= U ->
+  lj_inv_out k sigma U = Some rn -> U < 0 /\ lj_pot k sigma (rn * rn) = U.
+Proof.
+  intros Hk Hs Hmin H. unfold lj_inv_out in H.
+  destruct (Rle_dec 0 U) as [|Hneg]; [discriminate|]. apply Rnot_le_lt in Hneg.
+  injection H as <-. split; [exact Hneg|].
+  assert (Hrad : 0 <= 1 + 4 * U / k).
+  { assert (4 * U / k >= -1); [|lra]. unfold Rdiv.
+    assert (0 < / k) by (apply Rinv_0_lt_compat; exact Hk).
+    replace (-1) with (4 * (- k / 4) * / k) by (field; lra). nra. }
+  assert (Hlt1 : 1 + 4 * U / k < 1).
+  { assert (4 * U / k < 0); [|lra]. unfold Rdiv. assert (0 < / k) by (apply Rinv_0_lt_compat; exact Hk). nra. }
+  pose proof (sqrt_pos (1 + 4 * U / k)) as Hs0.
+  assert (Hs1 : sqrt (1 + 4 * U / k) < 1) by (rewrite <- sqrt_1 at 2; apply sqrt_lt_1_alt; lra).
+  pose proof (sqrt_sqrt _ Hrad) as Hss.
+  set (s := sqrt (1 + 4 * U / k)) in *.
+  rewrite (lj_pot_of_t k sigma ((1 - s) / 2) Hs) by lra.
+  replace ((1 - s) / 2 * ((1 - s) / 2) - (1 - s) / 2) with ((s * s - 1) / 4) by field.
+  rewrite Hss. field. lra.
+Qed.
+
+Theorem lj_invert_inside (k sigma U : R) :
+  0 < k -> 0 < sigma -> - k / 4 <= U ->
+  let rn := lj_inv_in k sigma U in lj_pot k sigma (rn * rn) = U.
+Proof.
+  intros Hk Hs Hmin rn. unfold lj_inv_in in rn.
+  assert (Hrad : 0 <= 1 + 4 * U / k).
+  { assert (4 * U / k >= -1); [|lra]. unfold Rdiv.
+    assert (0 < / k) by (apply Rinv_0_lt_compat; exact Hk).
+    replace (-1) with (4 * (- k / 4) * / k) by (field; lra). nra. }
+  pose proof (sqrt_pos (1 + 4 * U / k)) as Hs0.
+  pose proof (sqrt_sqrt _ Hrad) as Hss.
+  subst rn. set (s := sqrt (1 + 4 * U / k)) in *.
+  rewrite (lj_pot_of_t k sigma ((1 + s) / 2) Hs) by lra.
+  replace ((1 + s) / 2 * ((1 + s) / 2) - (1 + s) / 2) with ((s * s - 1) / 4) by field.
+  rewrite Hss. field. lra.
+Qed.
+
+(** the code's _potential is the Lennard-Jones energy *)
+Lemma lj_pot_U (k sigma r2 : R) : 0 < r2 -> lj_pot k sigma r2 = lj_U k sigma (sqrt r2).
+Proof.
+  intros H. unfold lj_pot, lj_U, ip_potential.
+  assert (Hs : 0 < sqrt r2) by (apply sqrt_lt_R0, H).
+  replace (6 / 2) with (INR 3) by (simpl; field).
+  replace (12 / 2) with (INR 6) by (simpl; field).
+  rewrite !Rpower_pow by exact H.
+  rewrite <- (sqrt_sqrt r2) at 1 2 by lra.
+  field. lra.
+Qed.
+
+Lemma dep_pot_U (k r0 : R) (p : nat) (r2 : R) : dep_pot k r0 p r2 = dep_U k r0 p (sqrt r2).
+Proof. reflexivity. Qed.
+
+(** *** generic Mexican hat, case "in front of the target and outside the minimum sphere" *)
+Lemma pos_var_breaks_nonpos (f : R -> R) (d : R) (bs : list R) :
+  0 <= d -> List.Forall (fun b => b <= 0) bs -> pos_var_from f d 0 bs = Rmax 0 (f d - f 0).
+Proof.
+  intros Hd H. induction H as [|b bs Hb _ IH]; simpl; [reflexivity|].
+  assert (E : clamp d b = 0).
+  { unfold clamp. rewrite Rmin_right by lra. apply Rmax_left; lra. }
+  rewrite E, IH. replace (f 0 - f 0) with 0 by ring. rewrite (Rmax_left 0 0) by lra. ring.
+Qed.
+
+Theorem mh_front_outside_inverts (m : mexhat) (dE x q d : R) (bs : list R) :
+  (forall a b, mh_r0sq m <= a -> a < b -> mh_pot m a < mh_pot m b) ->
+  (forall U rn, mh_pot m (mh_r0sq m) < U -> mh_inv_out m U = Some rn ->
+                0 <= rn /\ mh_r0sq m <= rn * rn /\ mh_pot m (rn * rn) = U) ->
+  x <= 0 -> mh_r0sq m <= q + x * x -> 0 < dE -> 0 <= q ->
+  List.Forall (fun b => b <= 0) bs ->
+  mh_front_outside m (mh_pot m (q + x * x)) dE x q = Some d ->
+  0 < d /\
+  mh_pot m (q + (x - d) * (x - d)) = mh_pot m (q + x * x) + dE /\
+  Eplus (fun s => mh_pot m (q + (x - s) * (x - s))) bs d = dE.
+Proof.
+  intros Hmono Hinv Hx Hout HdE Hq Hbs H.
+  unfold mh_front_outside in H.
+  destruct (mh_inv_out m (mh_pot m (q + x * x) + dE)) as [rn|] eqn:E; [|discriminate].
+  injection H as <-.
+  set (U0 := mh_pot m (q + x * x)) in *.
+  assert (Hmin : mh_pot m (mh_r0sq m) <= U0).
+  { destruct (Rle_lt_or_eq_dec _ _ Hout) as [L|L]; [left; apply Hmono; lra | rewrite L; unfold U0; lra]. }
+  assert (HUlt : mh_pot m (mh_r0sq m) < U0 + dE) by lra.
+  destruct (Hinv (U0 + dE) rn HUlt E) as [Hrn [Hrn2 Hpot]].
+  assert (Hgt : q + x * x < rn * rn).
+  { destruct (Rlt_le_dec (q + x * x) (rn * rn)) as [L|L]; [exact L|]. exfalso.
+    destruct (Rle_lt_or_eq_dec _ _ L) as [L'|L'].
+    - pose proof (Hmono _ _ Hrn2 L'). fold U0 in H. lra.
+    - rewrite L' in Hpot. fold U0 in Hpot. lra. }
+  assert (Hnq : 0 <= rn * rn - q) by nra.
+  assert (Hs : - x < sqrt (rn * rn - q)).
+  { rewrite <- (sqrt_square (- x)) by lra. apply sqrt_lt_1_alt. split; nra. }
+  unfold until_neg.
+  assert (Hpath : mh_pot m (q + (x - (x + sqrt (rn * rn - q))) * (x - (x + sqrt (rn * rn - q)))) = U0 + dE).
+  { replace (x - (x + sqrt (rn * rn - q))) with (- sqrt (rn * rn - q)) by ring.
+    replace (- sqrt (rn * rn - q) * - sqrt (rn * rn - q)) with (sqrt (rn * rn - q) * sqrt (rn * rn - q)) by ring.
+    rewrite sqrt_sqrt by exact Hnq. replace (q + (rn * rn - q)) with (rn * rn) by ring. exact Hpot. }
+  split; [lra|]. split; [exact Hpath|].
+  unfold Eplus. rewrite pos_var_breaks_nonpos by (try assumption; lra).
+  rewrite Hpath. replace (x - 0) with x by ring. fold U0.
+  replace (U0 + dE - U0) with dE by ring. apply Rmax_right; lra.
+Qed.
+
+(** instance: displaced even power potential *)
+Lemma dep_pot_increasing_outside (k r0 : R) (p : nat) (a b : R) :
+  0 < k -> 0 <= r0 -> (0 < p)%nat -> r0 * r0 <= a -> a < b -> dep_pot k r0 p a < dep_pot k r0 p b.
+Proof.
+  intros Hk Hr0 Hp Ha Hab. unfold dep_pot.
+  assert (r0 <= sqrt a).
+  { rewrite <- (sqrt_square r0) by exact Hr0. apply sqrt_le_1_alt; exact Ha. }
+  assert (sqrt a < sqrt b) by (apply sqrt_lt_1_alt; split; [nra | exact Hab]).
+  apply Rmult_lt_compat_l; [exact Hk|]. apply pow_lt_strict; [lra | exact Hp].
+Qed.
+
+Theorem dep_front_outside_inverts (k r0 : R) (p : nat) (dE x q d : R) :
+  0 < k -> 0 < r0 -> (0 < p)%nat ->
+  x <= 0 -> r0 * r0 <= q + x * x -> 0 < dE -> 0 <= q ->
+  mh_front_outside (dep_mexhat k r0 p) (dep_pot k r0 p (q + x * x)) dE x q = Some d ->
+  0 < d /\
+  dep_pot k r0 p (q + (x - d) * (x - d)) = dep_pot k r0 p (q + x * x) + dE /\
+  Eplus (fun s => dep_pot k r0 p (q + (x - s) * (x - s))) (breaks_mexhat x q r0) d = dE.
+Proof.
+  intros Hk Hr0 Hp Hx Hout HdE Hq H.
+  apply (mh_front_outside_inverts (dep_mexhat k r0 p) dE x q d (breaks_mexhat x q r0)); simpl; try assumption.
+  - intros a b Ha Hab. apply dep_pot_increasing_outside; try assumption; lra.
+  - intros U rn HU E.
+    assert (Hz : dep_pot k r0 p (r0 * r0) = 0).
+    { unfold dep_pot. rewrite sqrt_square by lra. replace (r0 - r0) with 0 by ring.
+      rewrite pow_i by exact Hp. ring. }
+    rewrite Hz in HU.
+    assert (Hr0' : 0 <= r0) by lra.
+    destruct (dep_invert_outside k r0 p U rn Hk Hr0' Hp HU E) as [Hgt Hpot].
+    split; [lra|]. split; [nra | exact Hpot].
+  - (* all break points lie behind the start: x <= - w *)
+    unfold breaks_mexhat. destruct (Rlt_dec q (r0 * r0)) as [Hin|Hin].
+    + assert (Hw : sqrt (r0 * r0 - q) <= - x).
+      { rewrite <- (sqrt_square (- x)) by lra. apply sqrt_le_1_alt. nra. }
+      pose proof (sqrt_pos (r0 * r0 - q)).
+      apply List.Forall_cons; [lra|]. apply List.Forall_cons; [lra|]. apply List.Forall_cons; [lra|].
+      apply List.Forall_nil.
+    + apply List.Forall_cons; [lra | apply List.Forall_nil].
+Qed.
